@@ -38,3 +38,12 @@ Theorem C05_surrogate_lookahead_refuted :
   exists s, quote_c (eff_of REQUOTER) s <> quote_py (eff_of REQUOTER) s.
 Proof. exists [37; 55296; 52; 49]. vm_compute. discriminate. Qed.
 Print Assumptions C05_surrogate_lookahead_refuted.
+
+(** the Writer (static buffer, growth by BUF bytes at a time) delivers exactly the
+    characters written for every buffer size: results cannot depend on where the 8 KiB
+    growth boundaries fall *)
+From Yarl Require Import Model.Writer Proofs.WriterProofs.
+Theorem C05_writer_boundary_free : forall (BUF : N) (out : str),
+  writer_call (fun _ => true) BUF out = Ok out.
+Proof. intros BUF out. now apply writer_call_no_fault. Qed.
+Print Assumptions C05_writer_boundary_free.
